@@ -304,11 +304,7 @@ contract(
         "glyph-set": "result.pen.glyphSet == self.allGlyphs",
         "drawn": "result.pen.drawn == glyph",
         "optimize-flag": "result.optimize == self.optimizeCFF and result.private == private",
-    },
-    bounded_ensures={
-        # width-operand (proved above) + lemma C01.cff_width (proved) give: the width a reader reconstructs is
-        # otRound(glyph.width).  The composed clause itself times out in this heap context (Real-typed pen field), so it
-        # is only evaluated at run time here.
+        # what a CFF reader reconstructs (default when the operand is omitted, else nominal + operand) is otRound(glyph.width)
         "reader-width": "(private.defaultWidthX if result.pen.width is None else private.nominalWidthX + result.pen.width) == otr(glyph.width)",
     },
     canaries={"always-explicit": "result.pen.width is not None"},
